@@ -10,9 +10,9 @@ CONSTANTS
   ROWCAP = 50
   BLOCKCAP = 100
   MAXW = 2
-  MAXH = 3
-  DEPTH = 3
-  OOB = TRUE
+  MAXH = 2
+  DEPTH = 2
+  OOB = FALSE
   REORIENT = TRUE
   BIGSET = FALSE
-  SAMPLE = 0
+  SAMPLE = 23
